@@ -211,6 +211,9 @@ class Model:
         elif self.cfg.get('xa'):
             cap = 190
         xl = op.get('xl')
+        if xl and isdir:
+            return {'iso': names.exact_iso_dir(n, xl.get('iso', 7), lead), 'rr': names.exact_plain(n, xl.get('rr', 8), lead),
+                    'jol': names.exact_plain(n, xl.get('jol', 5), lead), 'udf': names.exact_plain(n, xl.get('udf', 7), lead)}
         if xl and not isdir:
             # exact lengths requested (sector-filling recipes)
             return {'iso': names.exact_iso_file(n, xl.get('iso', 10), lead), 'rr': names.exact_plain(n, xl.get('rr', 8), lead),
